@@ -11,9 +11,12 @@ pub struct CountWaker {
 impl Wake for CountWaker {
     fn wake(self: Arc<Self>) {
         self.wakes.fetch_add(1, Ordering::SeqCst);
+        // An executor thread parked (under the baton scheduler) for this task.
+        crate::sched::notify(crate::sched::Reason::Token(Arc::as_ptr(&self) as u64));
     }
     fn wake_by_ref(self: &Arc<Self>) {
         self.wakes.fetch_add(1, Ordering::SeqCst);
+        crate::sched::notify(crate::sched::Reason::Token(Arc::as_ptr(self) as u64));
     }
 }
 
@@ -28,6 +31,10 @@ impl WakerHandle {
         let cell = Arc::new(CountWaker { wakes: AtomicU64::new(0) });
         let waker = Waker::from(cell.clone());
         WakerHandle { cell, waker }
+    }
+    /// Scheduler token notified by every wake of this waker.
+    pub fn token(&self) -> u64 {
+        Arc::as_ptr(&self.cell) as u64
     }
     pub fn wakes(&self) -> u64 {
         self.cell.wakes.load(Ordering::SeqCst)
